@@ -644,7 +644,7 @@ func init() {
 	vh.Register(&vh.Check{
 		ID: "C13", Level: "fault_enumeration",
 		Technique: "crash-image enumeration on the real on-disk driver: a child process opened like pool.go runs a history, reports file sizes after every acknowledged operation and is SIGKILLed without Close; every image 'killed after operation k' (value log cut at the recorded size) and 'killed while operation k was being written' (value log cut inside the appended bytes) is reopened through the real driver and compared with a reference model; plus schedule DFS of readers against multi-key writers and exhaustive migration of synthesised old-format databases",
-		Rule:      "all histories of length 2 plus half of those of length 3 (quick) / all of length 2-4 (thorough) over {SetNode a, SetNode b, UpdateNodePeers, AddNodeBalance, AddAccountNode (3 keys), AddAccountBalance, nonce, close+reopen}; per history: one image per acknowledged prefix (must equal the model after exactly that prefix) and, for the last operation, cut points inside its appended bytes (every byte for one shard, else every 16th plus the first and last 8; must equal the model before or after it); distinct = (kind, history length, matched candidate, refused?)",
+		Rule:      "all histories of length 2 plus half of those of length 3 (quick) / all of length 2-4 (thorough) over {SetNode a, SetNode b, UpdateNodePeers, AddNodeBalance, AddAccountNode (3 keys), AddAccountBalance, nonce, close+reopen}; per history: one image per acknowledged prefix (must equal the model after exactly that prefix) and, for the last operation, cut points inside its appended bytes (every byte for one shard, else every 16th plus the first and last 8; must equal the model before or after it); distinct = (kind, history length, matched candidate, refused?); 63 histories in which time passes (peer sets ageing out, late nonces)",
 		Assumptions: []string{
 			"SIGKILL semantics: what write() returned is in the page cache and survives; power loss below the page cache is not modelled",
 			"badger 2.0.3 appends a committed transaction to the value log with one write and touches MANIFEST/SST only on flush or Close; the truncation model is validated on every run by reopening the image cut at the final recorded size (it must equal the full acknowledged history)",
